@@ -1814,7 +1814,8 @@ func IsSelectAllAggregate(query *Query) bool {
 
 func ExecSelect(query *Query, current []any) ([]any, error) {
 	copy := make([]any, 0)
-	if IsSelectAllAggregate(query) {
+	// with GROUP BY even an all-aggregate select list yields one row per group
+	if len(query.groupDefinition) == 0 && IsSelectAllAggregate(query) {
 		rs, err := SelectExpr(query, nil, &query.selectDefinition)
 		if err != nil {
 			return nil, err
